@@ -9,9 +9,11 @@ EXTENDS TLC, Json
 GapClasses == {"any", "nl", "stmt"}
 \* insertion kinds of the property: blanks, block comments (also two adjacent, also spanning lines), line break,
 \* line comment (both spellings) at a line end, blank line between statements
-Kinds == {"space", "tab", "block", "block2", "blockml", "newline", "linecomment", "hashcomment", "blankline"}
+\* blockstars / blockdoc / blockslash: block comments whose text is made of the delimiter characters themselves
+\* ("/**/", "/** d **/", "/*/"): the comment ends at the FIRST "*/" from the opener's own "*" on (Lexer!CommentEnd)
+Kinds == {"space", "tab", "block", "block2", "blockml", "blockstars", "blockdoc", "blockslash", "newline", "linecomment", "hashcomment", "blankline"}
 Permitted(cls, kind) ==
-  CASE kind \in {"space", "tab", "block", "block2", "blockml"} -> TRUE
+  CASE kind \in {"space", "tab", "block", "block2", "blockml", "blockstars", "blockdoc", "blockslash"} -> TRUE
     [] kind = "newline" -> cls \in {"nl", "stmt"}
     [] kind \in {"linecomment", "hashcomment", "blankline"} -> cls = "stmt"
 Table == [cls \in GapClasses |-> {k \in Kinds : Permitted(cls, k)}]
